@@ -13,7 +13,7 @@
     by [ColumnBatch::new]).
 
     KnownClass (decidable, in the model): [known_class lt v] with the eight classes of [kclass]
-    for cells, [http_known s] for the error clause. *)
+    for cells, [http_known s msg] for the error clause. *)
 From Coq Require Import NArith ZArith List Bool.
 From Snel Require Import Base.Bytes Gen.Params Model.Render Proofs.RenderProofs.
 Import ListNotations.
@@ -59,7 +59,8 @@ Print Assumptions C20_cells_agree_typed.
 (** The agreement claim at full strength is FALSE of the model (and of the code): one single-cell
     witness per class — "18446744073709551615" in an Integer column (JSON number, Arrow null), the
     string "[1,2]" in a String column (JSON array, Arrow string), NaN in a Float column (JSON null),
-    1.5 in an Integer column, the integer 1 in a Float / Boolean / String column. *)
+    1.5 in an Integer column, 2^53 + 1 in a Float column (f64 cannot hold it), the integer 1 in a
+    Boolean / String column. *)
 Theorem C20_agree_refuted :
   cell_all_agree s_integer (SUtf8 s_u64max None (Some 4895412794951729152)) = false /\
   json_cell (SUtf8 s_u64max None (Some 4895412794951729152)) = DInt 18446744073709551615 /\
@@ -67,7 +68,7 @@ Theorem C20_agree_refuted :
   cell_all_agree s_string (SUtf8 [91;49;44;50;93] (Some [91;49;44;50;93]) None) = false /\
   cell_all_agree s_float (SFloat nan_bits [78;97;78]) = false /\
   cell_all_agree s_integer (SFloat 4609434218613702656 [49;46;53]) = false /\
-  cell_all_agree s_float (SInt 1) = false /\
+  cell_all_agree s_float (SInt 9007199254740993) = false /\
   cell_all_agree s_boolean (SInt 1) = false /\
   cell_all_agree s_string (SInt 1) = false.
 Proof. exact agree_refuted. Qed.
@@ -80,21 +81,29 @@ Proof. exact responses_agree_refuted. Qed.
 Print Assumptions C20_responses_agree_refuted.
 
 (** The two Arrow conversions disagree with each other (which one is taken depends on whether every
-    row of the batch was accepted): "42" in an Integer column is 42 / null, the integer 1 in a Float
-    column is null / 1.0, "true" in a Boolean column is true / null. *)
+    row of the batch was accepted): "42" in an Integer column is 42 / null, "true" in a Boolean
+    column is true / null. *)
 Theorem C20_arrow_paths_disagree_refuted :
   cell_agree (arrow_cell PWhole s_integer (SUtf8 [52;50] None (Some 4631107791820423168)))
              (arrow_cell PRow s_integer (SUtf8 [52;50] None (Some 4631107791820423168))) = false /\
   arrow_cell PWhole s_integer (SUtf8 [52;50] None (Some 4631107791820423168)) = DInt 42 /\
   arrow_cell PRow s_integer (SUtf8 [52;50] None (Some 4631107791820423168)) = DNull /\
-  arrow_cell PWhole s_float (SInt 1) = DNull /\
-  arrow_cell PRow s_float (SInt 1) = DFloat 4607182418800017408 /\
   arrow_cell PWhole s_boolean (SUtf8 [116;114;117;101] None None) = DBool true /\
   arrow_cell PRow s_boolean (SUtf8 [116;114;117;101] None None) = DNull.
 Proof. exact arrow_paths_disagree_refuted. Qed.
 Print Assumptions C20_arrow_paths_disagree_refuted.
 
-(** The known classes are exact: a cell decodes alike from every encoding if and only if it is
+(** After fix fba8206 the two conversions agree on every Int64 cell of a Float column: both write
+    [z as f64] (before, the whole-batch conversion wrote null). *)
+Theorem C20_arrow_paths_agree_int_in_float : forall lt z,
+  arrow_type_schema lt = AFloat64 ->
+  arrow_cell PWhole lt (SInt z) = arrow_cell PRow lt (SInt z) /\
+  arrow_cell PWhole lt (SInt z) = DFloat (f64_of_Z z).
+Proof. exact arrow_paths_agree_int_in_float. Qed.
+Print Assumptions C20_arrow_paths_agree_int_in_float.
+
+(** The known classes are exact (NonFloatInFloatColumn no longer contains the Int64 cells that f64
+    holds exactly): a cell decodes alike from every encoding if and only if it is
     outside all eight classes. *)
 Theorem C20_known_class_exact : forall lt v,
   known_class lt v = None <-> cell_all_agree lt v = true.
@@ -120,27 +129,38 @@ Theorem C20_error_status_same_body : forall s msg,
 Proof. exact error_status_same_body. Qed.
 Print Assumptions C20_error_status_same_body.
 
-(** ... but the HTTP status the dispatcher derives from those bytes is not: [400 "hi"] is answered
-    with 400 under the JSON renderer and 200 under the text renderer; a 404 with a twelve-byte message
-    is answered with 200 under the Arrow renderer. *)
+(** After fix c214409 the text rendering of an error of any length is answered with the error's
+    own HTTP status (before: always 200). *)
+Theorem C20_http_text_status_correct : forall s msg, http_status_of_error EText s msg = status_code s.
+Proof. exact http_text_status_correct. Qed.
+Print Assumptions C20_http_text_status_correct.
+
+(** ... and so are the JSON rendering and the Arrow renderer's JSON fallback as long as the body stays
+    below the full-parse limit (before: Arrow only for messages of at most 6 bytes). *)
+Theorem C20_http_status_correct_outside_known : forall s msg,
+  N.of_nat (length (render_error EJson s msg)) < render_http_parse_full_below ->
+  N.of_nat (length (render_error EArrow s msg)) < render_http_parse_full_below ->
+  http_status_of_error EJson s msg = status_code s /\
+  http_status_of_error EText s msg = status_code s /\
+  http_status_of_error EArrow s msg = status_code s.
+Proof. exact http_status_correct_outside_known. Qed.
+Print Assumptions C20_http_status_correct_outside_known.
+
+(** The claim "same status in every encoding" is still FALSE for long messages: a 400 with a
+    460-byte message has a JSON / Arrow body above 500 bytes, of which only the first 200 are
+    parsed (HTTP 200), while its text rendering is answered with 400. *)
 Theorem C20_http_status_same_refuted :
-  http_status_same StBadRequest [104;105] = false /\
-  http_status_of_error EJson StBadRequest [104;105] = 400 /\
-  http_status_of_error EText StBadRequest [104;105] = 200 /\
-  http_status_of_error EJson StNotFound [110;111;32;115;117;99;104;32;116;121;112;101] = 404 /\
-  http_status_of_error EArrow StNotFound [110;111;32;115;117;99;104;32;116;121;112;101] = 200.
+  http_status_same StBadRequest long_msg = false /\
+  http_status_of_error EJson StBadRequest long_msg = 200 /\
+  http_status_of_error EArrow StBadRequest long_msg = 200 /\
+  http_status_of_error EText StBadRequest long_msg = 400 /\
+  http_known StBadRequest long_msg = true.
 Proof. exact http_status_same_refuted. Qed.
 Print Assumptions C20_http_status_same_refuted.
 
-(** Every error status whose JSON body stays below the full-parse limit is affected. *)
-Theorem C20_http_status_differs_for_short_errors : forall s msg,
-  s <> StOk -> N.of_nat (length (render_error EJson s msg)) < render_http_parse_full_below ->
-  http_status_of_error EJson s msg <> http_status_of_error EText s msg.
-Proof. exact http_status_differs_for_short_errors. Qed.
-Print Assumptions C20_http_status_differs_for_short_errors.
-
-(** Outside the known class (status 200) the three encodings are answered with the same status. *)
+(** Outside the known class (an error whose JSON / Arrow body reaches the full-parse limit) the three
+    encodings are answered with the same status. *)
 Theorem C20_http_status_outside_known : forall s msg,
-  http_known s = false -> http_status_same s msg = true.
+  http_known s msg = false -> http_status_same s msg = true.
 Proof. exact http_status_outside_known. Qed.
 Print Assumptions C20_http_status_outside_known.
